@@ -513,7 +513,32 @@ def _nonempty_axioms(e: Term, formulas, sa: SetAlg) -> list:
     return out
 
 
-def guarded_equal(x: Any, y: Any, guard, sa: SetAlg, depth: int = 0) -> bool:
+TRUE_F = f_and()
+
+
+def _elem_instances(foralls, e: Term, sa: SetAlg) -> list:
+    """`no element of S satisfies c` (a path that did not leave a loop / comprehension by its raise or return), instantiated at the element
+    whose membership is being compared:  e in S  implies  not c[e]."""
+    out = []
+    for fa in foralls:
+        _, pat, it, conds = fa
+        if any(c[0] == "iter-elem" for c in conds):
+            continue
+        if pat[0] == "var":
+            sub = {pat: e}
+        elif pat[0] == "tuplelit" and all(x[0] == "var" for x in pat[1]):
+            sub = {x: ("proj", e, i) for i, x in enumerate(pat[1])}
+        else:
+            continue
+        try:
+            body = [sa.cond(sa.rewrite(subst(c, sub))) for c in conds]
+            out.append(norm_formula(f_not(f_and(sa.member(e, sa.rewrite(it)), *body))))
+        except Exception:  # noqa: BLE001
+            continue
+    return out
+
+
+def guarded_equal(x: Any, y: Any, guard, sa: SetAlg, depth: int = 0, foralls: tuple = ()) -> bool:
     """Are the two (raw) values equal on every input that satisfies the joint guard?  Set-valued operands are compared by membership
     under the guard (a part that is empty on these inputs does not count); everything else must have the same canonical form."""
     if x == y:
@@ -524,6 +549,33 @@ def guarded_equal(x: Any, y: Any, guard, sa: SetAlg, depth: int = 0) -> bool:
         if sa.canon_top(x) == sa.canon_top(y):
             return True
         xs, ys = sa.strip(x), sa.strip(y)
+        cx, cy = sa.canon_top(x), sa.canon_top(y)
+        if is_term(cx) and is_term(cy) and cx[0] == cy[0] == "comp" and cx[1] == cy[1] and cx[2] == cy[2] and len(cx[3]) == len(cy[3]) \
+                and all(g[0] == h[0] and g[1] == h[1] for g, h in zip(cx[3], cy[3])):
+            # the same elements drawn from the same collections: the two differ in their filters only -- compared as formulas about one
+            # arbitrary element of the collection (the universal facts of the guard instantiated at it)
+            prem, fx, fy, inst = [], [], [], []
+            try:
+                for (pat, it, c1), (_p, _i, c2) in zip(cx[3], cy[3]):
+                    prem.append(norm_formula(sa.member(pat, it)) if pat[0] == "var" else TRUE_F)
+                    fx.extend(norm_formula(sa.cond(c)) for c in c1)
+                    fy.extend(norm_formula(sa.cond(c)) for c in c2)
+                    for fa in foralls:
+                        _, fp, fit, fconds = fa
+                        if any(c[0] == "iter-elem" for c in fconds) or alpha_normalise(sa.canon(sa.rewrite(fit))) != alpha_normalise(sa.canon(it)):
+                            continue
+                        pv, wv = _pat_vars(fp), _pat_vars(pat)
+                        if len(pv) != len(wv) or fp[0] != pat[0]:
+                            continue
+                        sub = dict(zip(pv, wv))
+                        inst.append(norm_formula(f_not(f_and(*[sa.cond(sa.rewrite(subst(c, sub))) for c in fconds]))))
+                F1, F2 = f_and(*fx), f_and(*fy)
+                base = f_and(guard, *prem, *inst)
+                base = f_and(base, *class_axioms(f_and(base, F1, F2)))
+                if satisfy(f_and(base, F1, f_not(F2))) is None and satisfy(f_and(base, F2, f_not(F1))) is None:
+                    return True
+            except TooManyAtoms:
+                pass
 
         def setlike(t):
             return sa.is_setexpr(t) or t[0] == "bigunion" or (t[0] == "accum" and t[1] == "union")
@@ -538,7 +590,7 @@ def guarded_equal(x: Any, y: Any, guard, sa: SetAlg, depth: int = 0) -> bool:
             # a list filled by a loop is read by its elements (the evaluator's abstraction of such loops): compare the other side the same way
             e = ("var", "§elem")
             mx, my = sa.member(e, xs), sa.member(e, ys)
-            ax = _nonempty_axioms(e, (mx, my), sa)
+            ax = _nonempty_axioms(e, (mx, my), sa) + _elem_instances(foralls, e, sa)
             try:
                 return (satisfy(f_and(guard, norm_formula(mx), f_not(norm_formula(my)), *ax)) is None
                         and satisfy(f_and(guard, norm_formula(my), f_not(norm_formula(mx)), *ax)) is None)
@@ -547,7 +599,7 @@ def guarded_equal(x: Any, y: Any, guard, sa: SetAlg, depth: int = 0) -> bool:
         if setlike(xs) and setlike(ys):
             e = ("var", "§elem")
             mx, my = sa.member(e, xs), sa.member(e, ys)
-            ax = _nonempty_axioms(e, (mx, my), sa)
+            ax = _nonempty_axioms(e, (mx, my), sa) + _elem_instances(foralls, e, sa)
             try:
                 return (satisfy(f_and(guard, norm_formula(mx), f_not(norm_formula(my)), *ax)) is None
                         and satisfy(f_and(guard, norm_formula(my), f_not(norm_formula(mx)), *ax)) is None)
@@ -555,10 +607,10 @@ def guarded_equal(x: Any, y: Any, guard, sa: SetAlg, depth: int = 0) -> bool:
                 return False
         if x[0] != y[0] or len(x) != len(y):
             return False
-        return all(guarded_equal(u, v, guard, sa, depth + 1) for u, v in zip(x[1:], y[1:]))
+        return all(guarded_equal(u, v, guard, sa, depth + 1, foralls) for u, v in zip(x[1:], y[1:]))
     if is_term(x) or is_term(y) or len(x) != len(y):
         return False
-    return all(guarded_equal(u, v, guard, sa, depth + 1) for u, v in zip(x, y))
+    return all(guarded_equal(u, v, guard, sa, depth + 1, foralls) for u, v in zip(x, y))
 
 
 class Outcome:
@@ -688,6 +740,14 @@ def compare_with_reference(model: Model, impl_q: str, ref_q: str, types: dict[st
     if ignore_raises:
         oi = [o for o in oi if o.kind == "return"]
         orf = [o for o in orf if o.kind == "return"]
+    import os as _os
+    if _os.environ.get("YV_DEBUG_CMP") and _os.environ["YV_DEBUG_CMP"] in impl_q:
+        for side, os_ in (("IMPL", oi), ("REF", orf)):
+            for k, o in enumerate(os_):
+                print(f"-- {side} path {k} {o.kind} line {o.path.line}")
+                for c in o.conds:
+                    print("     cond:", show(c)[:600])
+                print("     value:", (o.value if isinstance(o.value, str) else show(o.raw))[:1500])
     sample = {"implementation paths": len(oi), "reference paths": len(orf),
               "implementation": [show(o.value)[:260] if not isinstance(o.value, str) else "raise " + o.value for o in oi[:3]]}
     if any(o.unknown for o in orf):
@@ -706,7 +766,8 @@ def compare_with_reference(model: Model, impl_q: str, ref_q: str, types: dict[st
                 continue
             if w is None:
                 continue
-            if a.kind == b.kind == "return" and not a.unknown and guarded_equal(a.raw, b.raw, joint_guard(a, b, sa), sa):
+            if a.kind == b.kind == "return" and not a.unknown and guarded_equal(
+                    a.raw, b.raw, joint_guard(a, b, sa), sa, foralls=tuple(c for c in tuple(a.conds) + tuple(b.conds) if c[0] == "forall-not")):
                 agreed.add(id(b))
                 continue
             if a.unknown:
